@@ -548,12 +548,12 @@ Proof.
   intros k m pl eps s s' [w pins] [w' pins'] Hs [Ep Sw]. cbn in Ep, Sw. subst pins'.
   unfold fadd_net_model. cbn [fn_weight fn_pins]. destruct m.
   - apply fapply_ops_sc; auto. apply fb2b_ops_sc; auto.
-  - destruct (length pins <=? 2)%nat.
+  - destruct (fbip_like pins).
     + apply fapply_ops_sc; auto. apply fbipoint_pl_ops_sc; auto.
     + apply (fcell_ops_sc k (fstar_pos pins pl) (fstar_pl_ops w pins pl eps) (fstar_pl_ops w' pins pl eps)); auto.
       intros c. apply fstar_pl_ops_sc; auto.
   - apply fapply_ops_sc; auto. apply fclique_pl_ops_sc; auto.
-  - destruct (length pins <=? 2)%nat.
+  - destruct (fbip_like pins).
     + apply fapply_ops_sc; auto. apply fbipoint_pl_ops_sc; auto.
     + apply (fcell_ops_sc k (fstar_pos pins pl) (flightstar_ops w pins pl eps) (flightstar_ops w' pins pl eps)); auto.
       intros c. apply flightstar_ops_sc; auto.
@@ -561,7 +561,7 @@ Qed.
 
 Lemma fadd_net_model_ok_mono : forall m pl eps s n, fs_ok (fadd_net_model m pl eps s n) = true -> fs_ok s = true.
 Proof.
-  intros m pl eps s n. unfold fadd_net_model. destruct m; try destruct (length (fn_pins n) <=? 2)%nat;
+  intros m pl eps s n. unfold fadd_net_model. destruct m; try destruct (fbip_like (fn_pins n));
     first [apply fapply_ops_ok_mono | apply fcell_ops_ok_mono].
 Qed.
 
@@ -570,14 +570,14 @@ Lemma fadd_star_sc : forall k s s' n n', fsys_sc k s s' -> fnet_sc k n n' ->
   fs_ok (fadd_star n s) = true -> fs_ok (fadd_star n' s') = true -> fsys_sc k (fadd_star n s) (fadd_star n' s').
 Proof.
   intros k s s' [w pins] [w' pins'] Hs [Ep Sw]. cbn in Ep, Sw. subst pins'.
-  unfold fadd_star. cbn [fn_weight fn_pins]. destruct (length pins <=? 2)%nat.
+  unfold fadd_star. cbn [fn_weight fn_pins]. destruct (fbip_like pins).
   - apply fapply_ops_sc; auto. apply fbipoint_ops_sc; auto.
   - apply (fcell_ops_sc k fzero (fstar_ops w pins) (fstar_ops w' pins)); auto. intros c. apply fstar_ops_sc; auto.
 Qed.
 
 Lemma fadd_star_ok_mono : forall n s, fs_ok (fadd_star n s) = true -> fs_ok s = true.
 Proof.
-  intros n s. unfold fadd_star. destruct (length (fn_pins n) <=? 2)%nat;
+  intros n s. unfold fadd_star. destruct (fbip_like (fn_pins n));
     first [apply fapply_ops_ok_mono | apply fcell_ops_ok_mono].
 Qed.
 
@@ -821,4 +821,224 @@ Proof.
   destruct y as [ | | |sy my ey By]; simpl in Hy; try discriminate.
   inversion Hx; inversion Hy; subst. unfold sc, B2R, F2R. cbn [is_finite Bsign Fnum Fexp]. repeat split; auto.
   rewrite bpow_plus. ring.
+Qed.
+
+(* ------------------------------------------------------------------ (10) normalize() (finding F22) in binary32 *)
+Lemma sc_abs : forall k a a', sc k a a' -> sc k (fabs a) (fabs a').
+Proof.
+  intros k a a' (F & F' & E & S). unfold sc, fabs. rewrite !is_finite_Babs, !B2R_Babs, E.
+  repeat split; auto.
+  - rewrite Rabs_mult, (Rabs_pos_eq (b2 k)) by apply bpow_ge_0. reflexivity.
+  - destruct a, a'; simpl in *; try discriminate; reflexivity.
+Qed.
+
+Lemma sc_ltb : forall k a a' b b', sc k a a' -> sc k b b' -> fltb a' b' = fltb a b.
+Proof.
+  intros k a a' b b' (Fa & Fa' & Ea & _) (Fb & Fb' & Eb & _). unfold fltb.
+  rewrite !Bltb_correct by assumption. rewrite Ea, Eb. pose proof (b2_pos k) as P.
+  destruct (Rlt_bool_spec (B2R a) (B2R b)) as [L|L].
+  - apply Rlt_bool_true. nra.
+  - apply Rlt_bool_false. nra.
+Qed.
+
+Lemma sc_max : forall k a a' b b', sc k a a' -> sc k b b' -> sc k (fmax_std a b) (fmax_std a' b').
+Proof. intros k a a' b b' Sa Sb. unfold fmax_std. rewrite (sc_ltb k a a' b b' Sa Sb). destruct (fltb a b); assumption. Qed.
+
+Lemma sc_maxabs : forall k l l', Forall2 (sc k) l l' -> sc k (fmaxabs l) (fmaxabs l').
+Proof.
+  intros k l l' H. unfold fmaxabs. generalize (sc_zero k). generalize fzero at 1 3. generalize fzero.
+  induction H as [|v v' l l' Hv H IH]; intros m m' Hm; simpl; [exact Hm|].
+  apply IH. apply sc_max; [exact Hm|apply sc_abs; exact Hv].
+Qed.
+
+Lemma filogb_mag : forall v : f32, is_finite v = true -> B2R v <> 0 -> filogb v = (mag radix2 (B2R v) - 1)%Z.
+Proof.
+  intros [s|s| |s m e B] F N; simpl in F; try discriminate; [simpl in N; congruence|].
+  unfold filogb, B2R. rewrite mag_F2R_Zdigits by (destruct s; discriminate). destruct s; reflexivity.
+Qed.
+
+Lemma fltb_zero_R : forall v : f32, is_finite v = true -> fltb fzero v = true -> 0 < B2R v.
+Proof.
+  intros v F H. unfold fltb in H. rewrite Bltb_correct in H by (auto; reflexivity). simpl in H.
+  destruct (Rlt_bool_spec 0 (B2R v)); [assumption|discriminate].
+Qed.
+
+Lemma filogb_sc : forall k v v', sc k v v' -> fltb fzero v = true -> filogb v' = (filogb v + k)%Z.
+Proof.
+  intros k v v' (F & F' & E & S) P. pose proof (fltb_zero_R v F P) as Pv. pose proof (b2_pos k) as Pk.
+  rewrite (filogb_mag v F) by lra. rewrite (filogb_mag v' F') by (rewrite E; nra).
+  rewrite E, Rmult_comm, mag_mult_bpow by lra. ring.
+Qed.
+
+(* ldexp of two exactly scaled numbers by exponents that differ by the scale: the same number, bit for bit *)
+Lemma fldexp_sc : forall k e v v', sc k v v' -> fldexp v' (- (e + k)) = fldexp v (- e).
+Proof.
+  intros k e v v' (F & F' & E & S). unfold fldexp.
+  pose proof (Bldexp_correct 24 128 q24 q24_128 mode_NE v (- e)) as C.
+  pose proof (Bldexp_correct 24 128 q24 q24_128 mode_NE v' (- (e + k))) as C'.
+  assert (X : B2R v' * b2 (- (e + k)) = B2R v * b2 (- e)).
+  { rewrite E. replace (- (e + k))%Z with (- e + - k)%Z by ring. rewrite bpow_plus, (bpow_opp radix2 k).
+    field. apply Rgt_not_eq, bpow_gt_0. }
+  rewrite X in C'. destruct (Rlt_bool _ _).
+  - destruct C as (C1 & C2 & C3). destruct C' as (C1' & C2' & C3'). apply B2R_Bsign_inj; try congruence.
+  - apply B2SF_inj. rewrite C, C', S. reflexivity.
+Qed.
+
+Lemma fldexp_0 : forall v : f32, is_finite v = true -> fldexp v 0 = v.
+Proof.
+  intros v F. assert (S : sc 0 v v). { unfold sc. repeat split; auto. simpl. ring. }
+  pose proof (fldexp_sc 0 0 v v S) as H. simpl in H. rewrite (sc_ldexp 0 v v S) at 2. symmetry. exact H.
+Qed.
+
+Lemma fscale_sys_sc : forall k e s s', fsys_sc k s s' -> fs_ok s' = fs_ok s -> fscale_sys (e + k) s' = fscale_sys e s.
+Proof.
+  intros k e [m r i n o] [m' r' i' n' o'] (Hm & Hr & Hi & Hn) Ho. cbn in *. unfold fscale_sys. cbn. subst. f_equal.
+  - clear -Hm. induction Hm as [|t t' l l' E H IH]; simpl; [reflexivity|]. destruct E as (E1 & E2 & E3).
+    rewrite IH, E1, E2, (fldexp_sc k e _ _ E3). reflexivity.
+  - clear -Hr. induction Hr as [|v v' l l' E H IH]; simpl; [reflexivity|]. rewrite IH, (fldexp_sc k e _ _ E). reflexivity.
+Qed.
+
+Lemma fscale_sys_0 : forall s, Forall (fun t => is_finite (ft_val t) = true) (fs_mat s) ->
+  Forall (fun v : f32 => is_finite v = true) (fs_rhs s) -> fscale_sys 0 s = s.
+Proof.
+  intros [m r i n o] Hm Hr. cbn in *. unfold fscale_sys. cbn. f_equal.
+  - induction Hm as [|t l F H IH]; simpl; [reflexivity|]. rewrite IH, (fldexp_0 _ F). destruct t; reflexivity.
+  - induction Hr as [|v l F H IH]; simpl; [reflexivity|]. rewrite IH, (fldexp_0 _ F). reflexivity.
+Qed.
+
+(* the exponent of normalize(), 0 standing for "no scaling" *)
+Definition fnorm_e (s : fsys) : Z :=
+  let e := filogb (fmaxabs (fs_rhs s)) in
+  if fltb fzero (fmaxabs (map ft_val (fs_mat s))) then Z.max e (filogb (fmaxabs (map ft_val (fs_mat s))) - 64) else e.
+
+Lemma fsys_sc_vals : forall k s s', fsys_sc k s s' -> Forall2 (sc k) (map ft_val (fs_mat s)) (map ft_val (fs_mat s')).
+Proof. intros k s s' (Hm & _). induction Hm as [|t t' l l' (_ & _ & E) H IH]; simpl; constructor; auto. Qed.
+
+Lemma Forall2_sc_finite_l : forall k l l', Forall2 (sc k) l l' -> Forall (fun v : f32 => is_finite v = true) l.
+Proof. intros k l l' H. induction H as [|v v' l l' E H IH]; constructor; auto. apply E. Qed.
+
+Lemma fnormalize_as_scale : forall k s s', fsys_sc k s s' -> fltb fzero (fmaxabs (fs_rhs s)) = true ->
+  fnormalize s = fscale_sys (fnorm_e s) s.
+Proof.
+  intros k s s' H P. pose proof (fsys_sc_vals k s s' H) as Hv. destruct H as (Hm & Hr & _).
+  pose proof (sc_maxabs k _ _ Hr) as Sr. pose proof (sc_maxabs k _ _ Hv) as Sm.
+  unfold fnormalize, fnorm_exp. cbv zeta. rewrite P, (sc_finite_l _ _ _ Sr), (sc_finite_l _ _ _ Sm). cbn [negb orb].
+  fold (fnorm_e s). destruct (fnorm_e s =? 0)%Z eqn:E; [|reflexivity].
+  apply Z.eqb_eq in E. rewrite E. symmetry. apply fscale_sys_0.
+  - clear -Hm. induction Hm as [|t t' l l' (_ & _ & E) H IH]; constructor; auto. apply E.
+  - eapply Forall2_sc_finite_l; eauto.
+Qed.
+
+Lemma sc_sym_finite : forall k s s', fsys_sc k s s' -> fsys_sc (- k) s' s.
+Proof.
+  assert (S : forall k v v', sc k v v' -> sc (- k) v' v).
+  { intros k v v' (F & F' & E & Sg). unfold sc. repeat split; auto. rewrite E, <- Rmult_assoc, <- bpow_plus.
+    replace (- k + k)%Z with 0%Z by ring. simpl. ring. }
+  intros k s s' (Hm & Hr & Hi & Hn). unfold fsys_sc. repeat split; auto.
+  - clear -Hm S. induction Hm as [|t t' l l' (E1 & E2 & E3) H IH]; constructor; auto. unfold ftrip_sc. auto.
+  - clear -Hr S. induction Hr; constructor; auto.
+Qed.
+
+(* (ii) two exactly 2^k-scaled systems with a non-zero right-hand side are normalised to THE SAME system *)
+Lemma fnormalize_scaled_identical : forall k s s', fsys_sc k s s' -> fs_ok s' = fs_ok s ->
+  fltb fzero (fmaxabs (fs_rhs s)) = true -> fnormalize s' = fnormalize s /\ fsolver_input s' = fsolver_input s.
+Proof.
+  intros k s s' H Ho P.
+  assert (G : fnormalize s' = fnormalize s).
+  { pose proof (fsys_sc_vals k s s' H) as Hv. pose proof H as (Hm & Hr & _).
+    pose proof (sc_maxabs k _ _ Hr) as Sr. pose proof (sc_maxabs k _ _ Hv) as Sm.
+    assert (P' : fltb fzero (fmaxabs (fs_rhs s')) = true) by (rewrite (sc_ltb k _ _ _ _ (sc_zero k) Sr); exact P).
+    rewrite (fnormalize_as_scale k s s' H P).
+    rewrite (fnormalize_as_scale (- k) s' s (sc_sym_finite _ _ _ H) P').
+    assert (E : fnorm_e s' = (fnorm_e s + k)%Z).
+    { unfold fnorm_e. rewrite (sc_ltb k _ _ _ _ (sc_zero k) Sm), (filogb_sc k _ _ Sr P).
+      destruct (fltb fzero (fmaxabs (map ft_val (fs_mat s)))) eqn:Q; [|reflexivity].
+      rewrite (filogb_sc k _ _ Sm Q). lia. }
+    rewrite E. apply fscale_sys_sc; assumption. }
+  split; [exact G|]. unfold fsolver_input. rewrite G. reflexivity.
+Qed.
+
+(* the strongest form of the power-of-two clause up to Eigen: inside the window of c17_float_assembly_pow2_exact the solver
+   receives the same bits, whatever k *)
+Lemma fsolver_input_pow2_identical : forall k nm nm', fnm_sc k nm nm' ->
+  (forall m pl eps, fs_ok (fcreate m nm pl eps) = true -> fs_ok (fcreate m nm' pl eps) = true ->
+     fltb fzero (fmaxabs (fs_rhs (fcreate m nm pl eps))) = true ->
+     fsolver_input (fcreate m nm' pl eps) = fsolver_input (fcreate m nm pl eps)) /\
+  (forall m pl eps tg st st' cutoff, Forall2 (sc k) st st' ->
+     fs_ok (fadd_penalty pl tg st cutoff (fcreate m nm pl eps)) = true ->
+     fs_ok (fadd_penalty pl tg st' cutoff (fcreate m nm' pl eps)) = true ->
+     fltb fzero (fmaxabs (fs_rhs (fadd_penalty pl tg st cutoff (fcreate m nm pl eps)))) = true ->
+     fsolver_input (fadd_penalty pl tg st' cutoff (fcreate m nm' pl eps)) = fsolver_input (fadd_penalty pl tg st cutoff (fcreate m nm pl eps))) /\
+  (fs_ok (fcreate_star0 nm) = true -> fs_ok (fcreate_star0 nm') = true ->
+     fltb fzero (fmaxabs (fs_rhs (fcreate_star0 nm))) = true -> fsolver_input (fcreate_star0 nm') = fsolver_input (fcreate_star0 nm)).
+Proof.
+  intros k nm nm' H. destruct (fassembly_pow2_exact k nm nm' H) as (A0 & _ & _ & A1 & A2).
+  split; [|split].
+  - intros m pl eps O O' P. apply (fnormalize_scaled_identical k); auto; congruence.
+  - intros m pl eps tg st st' cutoff Hst O O' P. apply (fnormalize_scaled_identical k); auto; congruence.
+  - intros O O' P. apply (fnormalize_scaled_identical k); auto; congruence.
+Qed.
+
+(* ------------------------------------------------------------------ (11) nets on a single cell (finding F25), binary32 *)
+Lemma fadd_pin_self : forall o s, fp_c1 o = fp_c2 o -> fadd_pin o s = s.
+Proof. intros o s H. unfold fadd_pin. rewrite H, Z.eqb_refl. reflexivity. Qed.
+
+Lemma fapply_ops_self : forall ops s, Forall (fun o => fp_c1 o = fp_c2 o) ops -> fapply_ops ops s = s.
+Proof.
+  intros ops s H. revert s. unfold fapply_ops. induction H as [|o r Ho H IH]; intros s; simpl; [reflexivity|].
+  rewrite fadd_pin_self by exact Ho. apply IH.
+Qed.
+
+Lemma fsingle_cell_spec : forall pins, fsingle_cell pins = true -> forall p q, In p pins -> In q pins -> fst p = fst q.
+Proof.
+  intros [|a r] H p q Hp Hq; [destruct Hp|]. simpl in H. rewrite forallb_forall in H.
+  assert (E : forall x, In x (a :: r) -> fst x = fst a).
+  { intros x [<-|Hx]; [reflexivity|]. apply Z.eqb_eq. apply H. exact Hx. }
+  rewrite (E p Hp), (E q Hq). reflexivity.
+Qed.
+
+Lemma fpair_ops_in : forall f pins o, In o (fpair_ops f pins) -> exists p q, In p pins /\ In q pins /\ o = f p q.
+Proof.
+  intros f pins. induction pins as [|a r IH]; intros o H; simpl in H; [destruct H|].
+  apply in_app_or in H. destruct H as [H|H].
+  - apply in_map_iff in H. destruct H as (q & E & Hq). exists a, q. simpl; auto.
+  - destruct (IH o H) as (p & q & Hp & Hq & E). exists p, q. simpl; auto.
+Qed.
+
+Lemma fpair_ops_self : forall f pins, fsingle_cell pins = true -> (forall p q, fp_c1 (f p q) = fst p /\ fp_c2 (f p q) = fst q) ->
+  Forall (fun o => fp_c1 o = fp_c2 o) (fpair_ops f pins).
+Proof.
+  intros f pins H Hf. apply Forall_forall. intros o Ho. destruct (fpair_ops_in _ _ _ Ho) as (p & q & Hp & Hq & ->).
+  destruct (Hf p q) as [-> ->]. apply (fsingle_cell_spec _ H); auto.
+Qed.
+
+Lemma fbipoint_pl_ops_self : forall w pins pl eps, fsingle_cell pins = true ->
+  Forall (fun o => fp_c1 o = fp_c2 o) (fbipoint_pl_ops w pins pl eps).
+Proof.
+  intros w pins pl eps H. unfold fbipoint_pl_ops. destruct pins as [|p0 [|p1 r]]; constructor; [|constructor].
+  cbn. apply (fsingle_cell_spec _ H); simpl; auto.
+Qed.
+Lemma fbipoint_ops_self : forall w pins, fsingle_cell pins = true -> Forall (fun o => fp_c1 o = fp_c2 o) (fbipoint_ops w pins).
+Proof.
+  intros w pins H. unfold fbipoint_ops. destruct pins as [|p0 [|p1 r]]; constructor; [|constructor].
+  cbn. apply (fsingle_cell_spec _ H); simpl; auto.
+Qed.
+
+(* binary32: a net whose pins are all on one cell adds nothing (values and flag) in the Star, Clique and LightStar models and in
+   the builders without placement.  (B2B: the same when the pin positions are finite; with a NaN position minPin() returns cell -1
+   and the C++ adds fixed pins: not covered) *)
+Lemma fsingle_cell_net_noop : forall n, fsingle_cell (fn_pins n) = true ->
+  (forall m pl eps s, m <> B2B -> fadd_net_model m pl eps s n = s) /\ (forall s, fadd_star n s = s) /\
+  (forall s, fadd_bipoint n s = s) /\ (forall s, fadd_clique n s = s).
+Proof.
+  intros n H. assert (B : fbip_like (fn_pins n) = true) by (unfold fbip_like; rewrite H; apply orb_true_r).
+  split; [|split; [|split]].
+  - intros m pl eps s Hm. unfold fadd_net_model. rewrite B. destruct m; [congruence| | |]; apply fapply_ops_self.
+    + apply fbipoint_pl_ops_self; exact H.
+    + unfold fclique_pl_ops. destruct (fclique_w _ _). apply fpair_ops_self; [exact H|]. intros; cbn; auto.
+    + apply fbipoint_pl_ops_self; exact H.
+  - intros s. unfold fadd_star. rewrite B. apply fapply_ops_self. apply fbipoint_ops_self; exact H.
+  - intros s. unfold fadd_bipoint. apply fapply_ops_self. apply fbipoint_ops_self; exact H.
+  - intros s. unfold fadd_clique. apply fapply_ops_self. unfold fclique_ops. destruct (fclique_w _ _).
+    apply fpair_ops_self; [exact H|]. intros; cbn; auto.
 Qed.
